@@ -178,6 +178,8 @@ class RequestPath(object):
         for st, v, idx in vals:
             if idx == 'exc':
                 continue
+            if idx == 'iter' and self._iterates_activation_container(fi, v, params, depth):
+                continue     # element of a container that itself belongs to this activation
             if idx is None and isinstance(v, ast.Call):
                 continue
             if idx is None and isinstance(v, ast.Name) and (v.id in REQUEST_LOCAL_NAMES or self._activation_local(fi, v.id, params, depth + 1)):
@@ -185,6 +187,39 @@ class RequestPath(object):
             if idx is None and isinstance(v, ast.Constant):
                 continue
             return False
+        return True
+
+    def _iterates_activation_container(self, fi, it, params, depth):
+        """``for x in <it>``: every container the iterable draws from (looking through enumerate / zip / sorted /
+        reversed / list / tuple / iter and .items() / .values() / .keys()) is rooted in a local that is fresh,
+        request-local by role, or itself holds only values produced in this activation.  Stores through ``x`` are then
+        stores into that container's own elements -- the same judgement the classification makes for ``c[i][k] = v``."""
+        todo, roots = [it], []
+        while todo:
+            e = todo.pop()
+            if isinstance(e, ast.Call) and isinstance(e.func, ast.Name) and e.func.id in ('enumerate', 'zip', 'sorted', 'reversed', 'list', 'tuple', 'iter') \
+                    and e.args and not any(isinstance(a, ast.Starred) for a in e.args):
+                todo.extend(e.args[:1] if e.func.id == 'enumerate' else e.args)
+                continue
+            if isinstance(e, ast.Call) and isinstance(e.func, ast.Attribute) and e.func.attr in ('items', 'values', 'keys') and not e.args:
+                todo.append(e.func.value)
+                continue
+            while isinstance(e, (ast.Attribute, ast.Subscript)):
+                e = e.value
+            if not isinstance(e, ast.Name):
+                return False
+            roots.append(e.id)
+        if not roots:
+            return False
+        fresh = effects.fresh_locals(self.repo, fi)
+        al = self.shared_aliases(fi)
+        for r in roots:
+            if r in ('self', 'cls') or r in al:
+                return False
+            if r in fresh or r in REQUEST_LOCAL_NAMES:
+                continue
+            if r in params or not self._activation_local(fi, r, params, depth + 1):
+                return False
         return True
 
     def shared_aliases(self, fi):
